@@ -11,7 +11,7 @@
    single steps. *)
 From Coq Require Import Arith List Bool.
 Import ListNotations.
-From Cffi Require Import C28.Model C28.Proofs C28.Proofs2 C28.Proofs3 C28.Proofs4.
+From Cffi Require Import C28.Gen C28.Model C28.Proofs C28.Proofs2 C28.Proofs3 C28.Proofs4.
 
 (* Python is initialized at most once *)
 Theorem C28_py_initialize_at_most_once : forall n sched, pycount (run n sched) <= 1.
